@@ -316,6 +316,15 @@ def snapshot(area):
     return lst, dig
 
 
+def temp_class(name, stage):
+    """stable class of a temporary's name: its prefix without the random part
+    and the timestamp"""
+    m = re.match(r'^(.*?)[a-z0-9_]{8}(\.\w+)?$', name)
+    base = m.group(1) if m else name
+    base = re.sub(r'\d{6,}', '', base).strip('_') or 'tmp'
+    return base if stage == 'mapping' else '%s-%s' % (stage, base)
+
+
 def under(p, d):
     return p == d or p.startswith(d.rstrip('/') + '/')
 
@@ -402,8 +411,7 @@ def check_one(ctx, area, spec, all_specs, history, before, dig0, after,
             gone = sorted(p for p in before if under(p, sd)
                           and p not in after and p not in all_outputs)
             if left:
-                pat = re.sub(r'[0-9]{6,}', 'N', os.path.basename(left[0]))
-                pat = re.sub(r'_[a-z0-9_]{8}($|\.)', r'_X\1', pat)
+                pat = temp_class(os.path.basename(left[0]), spec['stage'])
                 cls = 'after-error' if not st['ok'] else 'after-return'
                 early = ''
                 if spec['failure'] == 'unwritable_output':
@@ -413,9 +421,7 @@ def check_one(ctx, area, spec, all_specs, history, before, dig0, after,
                     # writing: runtime behaviour, its own class
                     cls = 'after-worker-failure'
                 ctx.violation(
-                    '%s/scratch/%s-left-%s%s' % (
-                        'C19', pat.split('_N_')[0].split('_X')[0], cls,
-                        early),
+                    'C19/scratch/%s-left-%s%s' % (pat, cls, early),
                     '%s run (%s, %s) left %s in the scratch directory'
                     % (spec['stage'], history, spec['failure'],
                        [os.path.relpath(x, sd) for x in left[:4]]),
